@@ -83,7 +83,8 @@ def judge_nop(ctx, code, cc, depth, kind):
     case = {'kind': 'nop', 'code': code, 'cc': cc, 'depth': depth,
             'ctx': kind}
     ctx.evaluated()
-    cache0 = {'sigfield1': b'abc', b'k': [b'v']}
+    cache0 = {'sigfield1': b'abc', b'k': [b'v'], b'P': [b'keep', b'me'],
+              b'E': [b'e'], b'x': b'raw'}
     try:
         tape, stack, cache = functions.run_script(prog, dict(cache0))
         exc = None
@@ -107,10 +108,13 @@ def judge_nop(ctx, code, cc, depth, kind):
                       'pointer+2)', case, f'{len(want)} items',
                       f'{len(got)} items, top={got[-1].hex() if got else None}')
     flags_want = {**functions.flags}
-    c2 = {k: v for k, v in cache.items() if k not in ('timestamp', b'P')}
+    c2 = {k: v for k, v in cache.items() if k != 'timestamp'}
+    want_cache = dict(cache0)
     if kind == 'loop':
-        pass        # the wrapper itself uses POP0
-    if c2 != cache0:
+        # the loop wrapper itself uses POP0 (register b'P')
+        c2.pop(b'P', None)
+        want_cache.pop(b'P', None)
+    if c2 != want_cache:
         ctx.violation('nop-cache-effect', 'NOP changed the cache', case,
                       repr(cache0), repr(c2)[:200])
     if dict(tape.flags) != flags_want:
@@ -204,7 +208,18 @@ def gen_fork_script(rng, code):
     tail = (isa.op('POP1') + bytes([rest])) if rng.random() < 0.8 \
         else (isa.op('POP1') + bytes([max(0, rest - 1)]))
     tail += isa.op('TRUE') if rng.random() < 0.9 else isa.op('FALSE')
-    prog = b''.join(isa.push(x) for x in items) + ctx_wrap(kind, body) + tail
+    pre = b''
+    if rng.random() < 0.3:
+        # a register written before the forked code and read after it
+        reg = rng.choice((b'P', b'k'))
+        if reg == b'P':
+            pre = isa.push(b'\x07') + isa.op('POP0')
+        else:
+            pre = isa.push(b'\x07') + isa.op('WRITE_CACHE') + b'\x01k\x01'
+        tail = isa.op('READ_CACHE') + b'\x01' + reg + isa.op('POP0') + tail
+    prog = pre + b''.join(isa.push(x) for x in items) \
+        + ctx_wrap(kind if not pre else rng.choice(('top', 'if', 'def')),
+                   body) + tail
     if rng.random() < 0.15:
         prog = prog[:rng.randrange(1, len(prog) + 1)]
     return prog, kind, count
